@@ -35,6 +35,7 @@ impl<'t> Interp<'t> {
             pc_begin: 0,
             replay_alloc_mark: None,
             refused_at_entry: 0,
+            by_value: false,
         });
         self.last = snap;
         self.check_stats(arena, true);
@@ -46,7 +47,8 @@ impl<'t> Interp<'t> {
         let entry = self.mark(&self.last.clone());
         let (isolated, replay) = if kind == FrameKind::Scoped { (n & 1 == 1, n & 2 == 2) } else { (false, false) };
         let min_align = match kind {
-            FrameKind::Aligned | FrameKind::ScopedAligned | FrameKind::Settings => n,
+            FrameKind::Aligned | FrameKind::ScopedAligned => n,
+            FrameKind::Settings => n & 0xff,
             _ => parent_align,
         };
         if kind == FrameKind::Claim {
@@ -63,6 +65,7 @@ impl<'t> Interp<'t> {
             pc_begin: self.pc,
             replay_alloc_mark: if replay { Some(heap::with(0, |h| h.n_alloc - h.n_refused)) } else { None },
             refused_at_entry: heap::with(0, |h| h.n_refused) + self.failed_calls,
+            by_value: kind == FrameKind::Settings && n & 0x100 != 0,
         });
         self.stats.sig_mix(0x100 + kind as u64 * 8 + min_align.trailing_zeros() as u64);
         self.stats.bump(match kind {
@@ -120,8 +123,18 @@ impl<'t> Interp<'t> {
     /// Called in the parent frame after the child frame returned or unwound.
     pub fn exit(&mut self, arena: &dyn Arena, unwound: bool) {
         let f = self.frames.pop().unwrap();
+        if self.abort_run {
+            // a known finding was observed further in: the state is tainted, no more checks in this run
+            if f.kind == FrameKind::Claim {
+                self.claim_depth -= 1;
+            }
+            return;
+        }
         let guard_last = self.last.clone();
         let snap = arena.snap();
+        if self.verbose {
+            eprintln!("    exit {:?} (by_value {}) -> pos {:?} allocated {}", f.kind, f.by_value, snap.cur().map(|c| (heap_off(c.content_start), heap_off(c.pos), heap_off(c.content_end))), snap.typed.allocated);
+        }
         if unwound {
             self.stats.probe("unwind.through_frame");
         }
@@ -146,10 +159,27 @@ impl<'t> Interp<'t> {
                 self.last_scope_range = Some((f.pc_begin, self.cur_op));
             }
             self.stats.add("blocks.died_with_scope", f.blocks.len() as u64);
+        } else if f.by_value && self.kf_byvalue_lowered_switch && snap.cur().is_some_and(|c| c.pos % f.outer_align != 0) {
+            // Known finding (see known_findings.json, F8): reported under its own class and the run stops here,
+            // because everything after it is tainted by the misaligned position.
+            let pos = snap.cur().map_or(0, |c| heap_off(c.pos));
+            if self.on.c18 {
+                self.viol("C18/exit-unaligned@by-value-copy-lowered-alignment-chunk-switch", format!("position {pos:#x} of the original handle is not a multiple of its minimum alignment {} after a by_value() copy lowered the alignment and moved on to another chunk", f.outer_align));
+            }
+            if self.on.c10 {
+                self.viol("C10/position-unaligned@by-value-copy-lowered-alignment-chunk-switch", format!("position {pos:#x} is not a multiple of the minimum alignment in force {}", f.outer_align));
+            }
+            self.stats.probe("known.f8_byvalue_lowered_switch");
+            self.abort_run = true;
+            self.last = snap;
+            return;
         } else {
-            // blocks survive and now belong to the parent frame
+            // blocks survive and now belong to the parent frame (except after `by_value()`, whose allocations are
+            // bounded by the reborrow: the original handle may be on an older chunk and reuse the newer ones)
             let parent = self.frames.last_mut().unwrap();
-            parent.blocks.extend(f.blocks);
+            if !f.by_value {
+                parent.blocks.extend(f.blocks);
+            }
             match f.kind {
                 FrameKind::Aligned | FrameKind::Settings => {
                     if let Some(c) = snap.cur() {
@@ -259,6 +289,9 @@ impl<'t> Interp<'t> {
     /// C10 (+ position alignment for C18) on `self.last`.
     pub fn check_stats(&mut self, arena: &dyn Arena, single_arena: bool) {
         self.drain_heap_errors();
+        if self.abort_run {
+            return;
+        }
         let info = arena.info();
         let snap = self.last.clone();
         let t = &snap.typed;
